@@ -441,7 +441,7 @@ fn gen_session(rng: &mut Rng, w: &World, len: usize) -> Vec<(i64, OEv)> {
             let k = if rng.chance(4, 5) { 2 } else { 3 };
             let b = rng.chance(1, 2);
             // sometimes an entry dated before the last one of that key (refused by add_*)
-            let d = if rng.chance(1, 12) { t - 20 * DAY } else { t };
+            let d = if rng.chance(1, 12) { BASE - 3 * DAY + rng.range(0, 1000) } else { t };   // after every room was created: the instance's key is admin at that date
             let ev = match rng.below(6) { 0..=2 => Ev::User(g, k, d, b), 3 => Ev::UAdmin(g, k, d, b), 4 => Ev::Admin(k, d, b), _ => Ev::User(g + if rng.chance(1, 3) { 1 } else { 0 }, k, d, b) };
             last_defined = Some(r);
             if d != t { evs.push((d, OEv::Define(r, ev))); continue; }
